@@ -316,7 +316,8 @@ NAMES = ["a", "b", "c", "f", "x", "y", "ID2", "id", "name", "my field", "Größe
          "x y z", "é", "q2", "名", "A", "value", "t 1", "k+", "(p)", "a,b", "a;b", "1_", "0x1", "1e3", "-", "lst",
          "custom_field", "row", "2nd", "+", "tr ue", "int", "str", "List[int]", "9z"]
 PADS = ["", "", "", "", " ", "  ", "\t", " ", "　 "]
-STR_DEFAULTS = ["v", "hello world", "a=b", "1", "True", "", "é ü", "a;b|c", "-", "false", "x = y", "=", "[1]", "5"]
+STR_DEFAULTS = ["v", "hello world", "a=b", "1", "True", "", "é ü", "a;b|c", "-", "false", "x = y", "=", "[1]", "5",
+                "V", "Hello World", "true", "É Ü", "01"]     # pairs that a normalised (lower / int) cache key would merge
 STR_DEFAULTS_COLON = ["x:y", ":", "http://h/p", "a: b"]
 DOT_STR_DEFAULTS = ["1.5", "a.b", "e.g.", ".", "www.example.org"]
 FLOAT_DEFAULTS = ["2", "-3", "1e3", "1E-2", "inf", "-inf", "nan", "1_0", "+7", "0", "12e+2", "Infinity", "NaN"]
